@@ -150,6 +150,12 @@ func fold(e ast.Expr, consts map[string]constant.Value) constant.Value {
 		return fold(x.X, consts)
 	case *ast.Ident:
 		return consts[x.Name]
+	case *ast.SelectorExpr:
+		if id, ok := x.X.(*ast.Ident); ok && id.Name == "time" {
+			if v, ok := timeUnits[x.Sel.Name]; ok {
+				return constant.MakeInt64(v)
+			}
+		}
 	case *ast.UnaryExpr:
 		if v := fold(x.X, consts); v != nil && (x.Op == token.SUB || x.Op == token.ADD || x.Op == token.XOR) {
 			return constant.UnaryOp(x.Op, v, 64)
@@ -190,6 +196,20 @@ func fold(e ast.Expr, consts map[string]constant.Value) constant.Value {
 		}
 	}
 	return nil
+}
+
+var timeUnits = map[string]int64{"Nanosecond": 1, "Microsecond": 1e3, "Millisecond": 1e6, "Second": 1e9, "Minute": 60e9, "Hour": 3600e9}
+
+// Durations returns the harvested integers that look like durations written with the time package's units
+// (at least a millisecond, at most a year), in nanoseconds.
+func (r Result) Durations() []int64 {
+	var out []int64
+	for _, i := range r.Ints {
+		if i >= 1e6 && i <= 366*24*3600e9 && i%1e6 == 0 {
+			out = append(out, i)
+		}
+	}
+	return out
 }
 
 // Thresholds returns the harvested integers in [lo, hi].
